@@ -1,5 +1,5 @@
 (* C14 — to_thread.run_sync: faithful results, bounded threads, cancellation handled (PARTIAL: the OS thread
-   is an oracle — ops ThreadStart / ThreadFinish w payload / ThreadCheckCancelled are chosen by the environment).
+   is an oracle — ops ThreadStart / ThreadFinish w payload / ThreadReturn w / ThreadCheckCancelled are chosen by the environment).
    This file contains only statements closed by `exact` and their Print Assumptions. *)
 From AV Require Import Base Threads ThreadsProofs.
 
@@ -114,15 +114,35 @@ Theorem C14_worker_reuse : forall tot pr s,
 Proof. exact rs_worker_reuse. Qed.
 Print Assumptions C14_worker_reuse.
 
-(* FINDING: "every worker is idle or busy" is false of the faithful model — a worker that dequeues an item whose
-   future was cancelled first is lost for good (neither idle, nor executing, nor ever reusable) *)
-Theorem C14_no_worker_leak_refuted :
-  exists ops, let s := final step (init 1 false) ops in
+(* HEAD (after fix 952e60b): no worker is ever lost.  Every worker ever created is idle (free AND in the idle deque),
+   has an item queued, executes a function, has the payload-less report of a skipped item in flight, or was pruned;
+   and each busy state leads back to the idle deque through the thread's own next ops (ThreadStart, then ThreadFinish
+   or ThreadReturn), the future of a skipped item staying cancelled *)
+Theorem C14_no_worker_lost : forall tot pr s,
+  reach tot pr s ->
+  (forall w, w < nwork s ->
+     (wk s w = WFree /\ In w (idle s)) \/ (exists c, wk s w = WQueued c) \/ (exists c, wk s w = WExec c) \/
+     wk s w = WSkip \/ wk s w = WStopped) /\
+  (forall w, wk s w <> WLost) /\
+  (forall w c, wk s w = WQueued c ->
+     wk (fst (step s (ThreadStart w))) w = WExec c \/ wk (fst (step s (ThreadStart w))) w = WSkip) /\
+  (forall w c p, wk s w = WExec c ->
+     let s' := fst (step s (ThreadFinish w p)) in wk s' w = WFree /\ In w (idle s')) /\
+  (forall w, wk s w = WSkip ->
+     let s' := fst (step s (ThreadReturn w)) in wk s' w = WFree /\ In w (idle s') /\ calls s' = calls s).
+Proof. exact rs_no_worker_lost. Qed.
+Print Assumptions C14_no_worker_lost.
+
+(* FINDING F8 (fixed: 952e60b), kept for the PINNED transition system `step_pinned` (a skipped item is not reported):
+   there a worker that dequeues an item whose future was cancelled first is lost for good - neither idle, nor
+   executing, nor ever reusable *)
+Theorem C14_no_worker_leak_refuted_pinned :
+  exists ops, let s := final step_pinned (init 1 false) ops in
     ph (calls s 0) = PDone DCancelled /\ lb s = [] /\ exec s = [] /\
     nwork s = 1 /\ wk s 0 = WLost /\ idle s = [] /\
-    forall more, wk (final step s more) 0 = WLost.
-Proof. exact rs_no_worker_leak_refuted. Qed.
-Print Assumptions C14_no_worker_leak_refuted.
+    forall more, wk (final step_pinned s more) 0 = WLost.
+Proof. exact rs_no_worker_leak_refuted_pinned. Qed.
+Print Assumptions C14_no_worker_leak_refuted_pinned.
 
 (* the states the codec visits (scripted op followed by `settle`) are reachable states of the LTS, so every theorem
    above applies to every state compared with the implementation *)
